@@ -227,6 +227,7 @@ def run(ctx):
                             if rng.random() < ctx.n(0.12, 0.5):
                                 exprs.append('bm_run %s' % coq_ops(bl.ops[(b, a)]))
                                 meta.append((dict(key0, end=[b, a], after_program='shutdown'), [], False))
+                    sess.check_shutdown_state(ctx, key0)
                     left = sess.leftover()
                     if left:
                         ctx.violation('receive buffers not empty after shutdown', {'case': key0, 'left': left})
